@@ -25,7 +25,7 @@ class Ob:
     def __init__(self, id, props, tu, roots, harness, entry='harness', spec=None, enforce=None, replace=(),
                  tier='U', unwind=None, unwindset=None, defines=None, cfg='kernel', timeout=300, quick=True,
                  covers=0, expect_loops=(), note='', flags=(), bounds=None, loop_contracts=True, object_bits=12,
-                 expected_fail=(), kissat=False, spec_text='', includes=(), copies=(), stubs=None, inline_vec=False, adaptive_unwind=True):
+                 expected_fail=(), kissat=False, spec_text='', includes=(), copies=(), stubs=None, inline_vec=False, adaptive_unwind=True, inits=None, prebuild_shape=None, unwind_start=3):
         self.id = id; self.props = props; self.tu = tu; self.roots = roots; self.harness = harness; self.entry = entry
         self.mesh_harness = None
         if not isinstance(harness, str):
@@ -34,7 +34,7 @@ class Ob:
         self.unwind = unwind; self.unwindset = unwindset; self.defines = defines or {}; self.cfg = cfg
         self.timeout = timeout; self.quick = quick; self.covers = covers; self.expect_loops = expect_loops
         self.note = note; self.flags = list(flags); self.bounds = bounds or {}; self.loop_contracts = loop_contracts
-        self.object_bits = object_bits; self.expected_fail = expected_fail; self.kissat = kissat; self.spec_text = spec_text; self.includes = list(includes); self.copies = list(copies); self.stubs = stubs or {}; self.inline_vec = inline_vec; self.adaptive_unwind = adaptive_unwind
+        self.object_bits = object_bits; self.expected_fail = expected_fail; self.kissat = kissat; self.spec_text = spec_text; self.includes = list(includes); self.copies = list(copies); self.stubs = stubs or {}; self.inline_vec = inline_vec; self.adaptive_unwind = adaptive_unwind; self.inits = inits or {}; self.prebuild_shape = prebuild_shape; self.unwind_start = unwind_start
 
 # ---------------------------------------------------------------------------------------------- AST cache
 TUS = {'kernel': 'tu/kernel.cc', 'tethex': 'tu/tethex.cc', 'ovmb': 'tu/ovmb.cc', 'vector': 'tu/vector.cc'}
@@ -166,6 +166,15 @@ def run_ob(ob, tier, workdir):
         for ck in ob.copies:
             unit.em.fc = None
             unit.em.copy_helper(unit.em.canon(parse_type(ck)))
+        init_text = ''
+        if ob.inits:
+            from emit import FuncCtx
+            for fname, tkey in ob.inits.items():
+                unit.em.fc = FuncCtx(fname); unit.em.fc.root = {}; unit.em.fc.self_t = None
+                tt = unit.em.canon(parse_type(tkey))
+                body = unit.em.with_temps(lambda: [unit.em.default_init_stmt(tt, '(*p)')])
+                init_text += 'static void %s(%s *p) { %s }\n' % (fname, unit.em.ctype(tt), ' '.join(body))
+                unit.em.fc = None
         ctext = unit.generate()
         # contracts must have been woven: every named function present
         for cn in ([ob.enforce] if ob.enforce else []) + ob.replace:
@@ -181,7 +190,20 @@ def run_ob(ob, tier, workdir):
         defs = ''.join('#define %s %s\n' % kv for kv in ob.defines.items()) + ('#define VSTD_INLINE 1\n' if ob.inline_vec else '')
         stubs = ghost_stub_bodies(unit, ob) if unit.em.stub_protos else ''
         inc = ''.join('#include "%s/spec/%s"\n' % (ROOT, h) for h in ob.includes)
-        open(hpath, 'w').write(defs + '#include "gen.c"\nint g_k, g_j; unsigned long g_u;\n#include "%s/spec/common.h"\n' % ROOT + inc + stubs + ob.harness + '\n')
+        head = defs + '#include "gen.c"\nint g_k, g_j; unsigned long g_u;\n#include "%s/spec/common.h"\n' % ROOT + init_text + inc + stubs
+        shape_w = ''
+        if ob.prebuild_shape is not None:
+            # the shape is constructed by running the extracted construction code natively; CBMC starts from its witness
+            pb = os.path.join(d, 'prebuild.c')
+            open(pb, 'w').write('#include <stdio.h>\n#include <stdlib.h>\n#define __CPROVER_assert(c, m) do { if (!(c)) { fprintf(stderr, "prebuild assertion failed: %s\\n", m); exit(3); } } while (0)\n#define __CPROVER_assume(c) ((void)0)\n'
+                              'int nondet_int(void) { return 0; } unsigned long nondet_ulong(void) { return 0; } _Bool nondet_bool(void) { return 0; }\n' + head +
+                              'int main(void) { TK m; shape_build(&m, %d); if (!wf(&m) || ovm_exc) { fprintf(stderr, "shape not well-formed\\n"); return 4; } witness(&m, 0, 0, 0, 0); for (unsigned long i = 0; i < WN; i++) printf("%%d,", ovm_w[i]); printf("\\n"); return 0; }\n' % ob.prebuild_shape)
+            rcp, outp, _ = sh(['gcc', '-O0', '-w', '-I', ROOT, 'prebuild.c', '-o', 'prebuild'], 300, log, cwd=d)
+            if rcp != 0: raise Cxx2cError('prebuild of shape failed to compile: ' + outp[-500:])
+            pr = subprocess.run([os.path.join(d, 'prebuild')], stdout=subprocess.PIPE, stderr=subprocess.PIPE, timeout=60)
+            if pr.returncode != 0: raise Cxx2cError('native construction of the shape failed: ' + pr.stderr.decode()[-300:])
+            shape_w = '#define SHAPE_W ' + pr.stdout.decode().strip().rstrip(',') + '\n'
+        open(hpath, 'w').write(shape_w + head + ob.harness + '\n')
     except Cxx2cError as e:
         res['status'] = 'undecided'; res['reason'] = 'extraction: ' + str(e)
         open(log, 'a').write(str(e) + '\n'); res['wall_s'] = time.time() - t0
@@ -229,13 +251,13 @@ def run_ob(ob, tier, workdir):
     if ob.unwind is not None and ob.adaptive_unwind:
         # adaptive unwinding: start low; every loop whose unwinding assertion fails gets a larger bound, up to ob.unwind.
         # (paths beyond a failed unwinding assertion are cut, so early rounds are cheap; the final round has none failing)
-        U0 = min(3, ob.unwind)
+        U0 = min(ob.unwind_start, ob.unwind)
         # loops of specification/harness functions have constant bounds: give them the maximum at once
         rcl, outl, _ = sh(['cbmc', binp, '--show-loops'], 120, log, cwd=d)
         extracted = set(unit.em.func_text) | set(unit.em.stub_protos)
         for mm in re.finditer(r'^Loop ([^\s:]+)\.(\d+):', outl, re.M):
             fn = mm.group(1)
-            if fn not in extracted and not re.match(r'^(vec_|set_|vit_|rvit_|sit_|rsit_|vstd_|arr_|pair_|__CPROVER)', fn):
+            if (fn not in extracted and not re.match(r'^(vec_|set_|vit_|rvit_|sit_|rsit_|vstd_|arr_|pair_|__CPROVER)', fn)) or re.search(r'(_copy|__copy)$', fn):
                 uset.setdefault('%s.%s' % (fn, mm.group(2)), ob.unwind)
         for rnd in range(20):
             cb = cb0 + ['--unwind', str(U0), '--unwinding-assertions'] + (['--unwindset', ','.join('%s:%d' % kv for kv in sorted(uset.items()))] if uset else [])
